@@ -1,6 +1,6 @@
 (* ProtoPrintCorr.v — correspondence cases for C05: the literal layer and the scope shortening of
    the real printer, and the real protocompile resolver on the shortened names. *)
-From Coq Require Import String List NArith ZArith Bool.
+From Coq Require Import String Ascii List NArith ZArith Bool.
 From J5V.lib Require Import Outcome Corr.
 From J5V.model Require Import ProtoPrintLit ProtoPrint.
 Import ListNotations.
@@ -15,6 +15,13 @@ Inductive c05case :=
 (* contextRefName on a field of message pkg.ctx referring to refpkg.ref printed [printed];
    the real linker resolved the printed name (inside pkg.ctx) to [resolved] (None: link error) *)
 | CScope (pkg other : qname) (types : list qname) (ctx refpkg ref : qname) (printed : list N) (resolved : option qname).
+
+(* a Coq string literal as bytes: the harness writes printable ASCII runs of its byte strings this way *)
+Fixpoint sb (s : string) : list N :=
+  match s with
+  | EmptyString => []
+  | String a r => N_of_ascii a :: sb r
+  end.
 
 Definition bytes_eqb := list_eqb N.eqb.
 
